@@ -57,6 +57,7 @@ def run_shard(prop, tier, seed, shard, only=None):
         from . import paramcov
         paramcov.install()
     ctx = Ctx(prop, tier, seed, shard)
+    core.LONG_SCALE[0] = 8 if tier == "thorough" else 1
     k, n = shard
     t_start = time.time()
     if hasattr(mod, "setup"):
